@@ -81,10 +81,14 @@ def rule_refresh(ctx):
         if not muts:
             continue
         fl = ctx.flow(f)
+        # the trial record: the name bound from the wrapped trial function
+        tnames = {t.id for n in walk_local(f.node) if isinstance(n, ast.Assign)
+                  and isinstance(n.value, ast.Call) and "trial_fn" in ast.unparse(n.value.func)
+                  for t in n.targets if isinstance(t, ast.Name)} or {"trial"}
         updates = []
         for n, call in fl.calls():
             if isinstance(call.func, ast.Attribute) and call.func.attr == "update" and \
-                    isinstance(call.func.value, ast.Name) and call.func.value.id == "trial" \
+                    isinstance(call.func.value, ast.Name) and call.func.value.id in tnames \
                     and call.args and "contract_stats" in ast.unparse(call.args[0]):
                 updates.append(n.id)
         key = ctx.key(f, "C08-REFRESH")
@@ -289,7 +293,14 @@ def rule_assess(ctx):
     # (iv) trial bound
     key = ctx.key(srch, "C08-ASSESS", "repeats")
     la = ctx.r.local_assignments(srch)
-    rp = la.get("repeats", [])
+    # the repeat counter: first argument handed to the trial generators
+    rname = "repeats"
+    for call in walk_local(srch.node):
+        if isinstance(call, ast.Call) and isinstance(call.func, ast.Attribute) and \
+                call.func.attr.startswith("_gen_results") and call.args and \
+                isinstance(call.args[0], ast.Name):
+            rname = call.args[0].id
+    rp = la.get(rname, [])
     ok = False
     if len(rp) == 1 and isinstance(rp[0], ast.Call) and dotted(rp[0].func) == "range":
         args = rp[0].args
@@ -309,14 +320,16 @@ def rule_assess(ctx):
         g = hc.lookup(gname)
         C.require(g is not None, f"{gname} not found")
         key = ctx.key(g, "C08-ASSESS", "one-trial-per-repeat")
+        p0 = [x for x in g.positional if x != "self"][0]
         loops = [n for n in walk_local(g.node) if isinstance(n, ast.For)
-                 and C.unparse(n.iter) == "repeats"]
+                 and C.unparse(n.iter) == p0]
         if len(loops) != 1:
             r.violation(key, g.loc, "trials are not generated by exactly one loop over `repeats`")
             continue
         body = loops[0].body
+        p1 = [x for x in g.positional if x != "self"][1]
         launches = [x for b in body for x in ast.walk(b) if isinstance(x, ast.Call) and
-                    (dotted(x.func) in ("trial_fn", "submit"))]
+                    (dotted(x.func) in (p1, "submit"))]
         nested_loops = [x for b in body for x in ast.walk(b) if isinstance(x, (ast.For, ast.While))]
         if len(launches) == 1 and not nested_loops:
             r.ok(key, C.loc(g, loops[0]), "one trial launched per repeat")
